@@ -15,6 +15,7 @@ import numpy as np
 
 from vmon import core
 from vmon import gen
+from vmon import sanitize
 
 PROPERTY = 'C18'
 LEVEL = 'exploration'
@@ -49,7 +50,7 @@ EXHAUSTIVE = {'quick': True, 'thorough': True}
 MIN_HITS = {
     'quick': {
         'mon:wht': 2500, 'mon:whtshape': 2500, 'mon:matrix': 130, 'mon:linear': 150, 'mon:invol': 150, 'mon:invalid': 12,
-        'mon:norm': 130, 'mon:inverse': 70, 'mon:keys': 12, 'mon:treenorm': 60, 'mon:treeinverse': 60, 'mon:treekeys': 12,
+        'mon:inputs': 500, 'mon:norm': 130, 'mon:inverse': 70, 'mon:keys': 12, 'mon:treenorm': 60, 'mon:treeinverse': 60, 'mon:treekeys': 12,
         'mon:treestruct': 60, 'style:pos': 90, 'style:kw': 90, 'style:default': 11, 'valid': 170, 'invalid': 20,
         'rot-shape:0d': 4, 'rot-shape:non-pow2': 20, 'rot-shape:rank>=2': 15, 'tree:has-0d-leaf': 4, 'tree:no-0d-leaf': 20,
     },
@@ -405,18 +406,30 @@ def run_rotation_case(ctx, jax, jnp, wh, rng, shape, kind, typed_key=False, as_n
     ctx.klass('rot-shape:non-pow2')
   if len(shape) >= 2:
     ctx.klass('rot-shape:rank>=2')
+  snap_in = sanitize.snapshot_tree({'x': xin, 'key': k0}, freeze_numpy=False)
   r = guarded(ctx, 'structured_rotation', lambda: wh.structured_rotation(xin, k0), lambda e: None, wit)
+  sanitize.verify_tree(ctx, snap_in, 'inputs/structured_rotation', witness=wit)
   if r.ok:
     okp = isinstance(r.value, tuple) and len(r.value) == 2
     if ctx.check(okp, 'norm/result-not-a-pair', f'structured_rotation returned {type(r.value).__name__}', wit):
       rot, shp = r.value
       judge_norm(ctx, 'norm', x, rot, wit)
       # -------- inverse
+      snap = sanitize.snapshot_tree({'rotated': rot, 'key': k0, 'shape': shp}, freeze_numpy=False)
       ri = guarded(ctx, 'inverse_structured_rotation', lambda: wh.inverse_structured_rotation(rot, k0, shp),
                    lambda e: 'rotation/0d-inverse-raises' if (len(shape) == 0 and is_a2(e)) else None,
                    {**wit, 'original_shape_returned': shp})
+      # the rotated array, key and shape belong to the caller: still alive and unchanged after un-rotating (they are used
+      # again below: second un-rotation, other keys)
+      alive = sanitize.verify_tree(ctx, snap, 'inputs/inverse_structured_rotation', witness=wit)
       if ri.ok:
         judge_inverse(ctx, 'inverse', x, ri.value, wit)
+        if alive:
+          ri2 = guarded(ctx, 'inverse_structured_rotation', lambda: wh.inverse_structured_rotation(rot, k0, shp),
+                        lambda e: None, {**wit, 'call': 'second un-rotation of the same rotated array'})
+          if ri2.ok:
+            ctx.check(core.bit_equal(np.asarray(ri.value), np.asarray(ri2.value)), 'inverse/second-unrotation-differs',
+                      'un-rotating the same rotated array a second time gives a different result', wit)
       # -------- different keys
       nnz = int(np.count_nonzero(x))
       if nnz >= 16:
@@ -492,9 +505,11 @@ def run_tree_case(ctx, jax, jnp, wh, rng):
                  f'rotated tree structure {rdef} != input structure {treedef}', wit):
       for i, (l, rr) in enumerate(zip(leaves, rl)):
         judge_norm(ctx, 'treenorm', np.asarray(l), rr, {**wit, 'leaf': i})
+      snap = sanitize.snapshot_tree({'rotated': rot_tree, 'key': k0, 'shapes': shp_tree}, freeze_numpy=False)
       ri = guarded(ctx, 'inverse_structured_rotation_pytree',
                    lambda: wh.inverse_structured_rotation_pytree(rot_tree, k0, shp_tree),
                    lambda e: 'rotation/0d-inverse-raises' if (has0d and is_a2(e)) else None, wit)
+      sanitize.verify_tree(ctx, snap, 'inputs/inverse_structured_rotation_pytree', witness=wit)
       if ri.ok:
         bl, bdef = jax.tree_util.tree_flatten(ri.value)
         if ctx.check(bdef == treedef and len(bl) == len(leaves), 'treestruct/inverse-structure-differs',
